@@ -329,6 +329,10 @@ def run(ctx):
     d10_set_key_agrees(db, rep)
     d11_rule_lookup_fresh(db, rep)
     d12_emulate_request_honoured(db, rep)
+    d13_staged_scalar_identity(db, rep)
+    # "a rule set registered later ... takes precedence": also for a program that was compiled before - every compile request
+    # really compiles (shared with C19 D10)
+    __import__("importlib").import_module("rules.c19").request_reaches_compiler(db, rep, "D14-EVERY-COMPILE-COMPILES")
 
     # ---- D4 ------------------------------------------------------------------
     fn = db.func("orc_opcode_find_by_name", "orcopcode")
@@ -744,4 +748,37 @@ def d12_emulate_request_honoured(db, rep, rule="D12-EMULATE-REQUEST-HONOURED"):
                   line=blk.cond.line)
     if n < 1:
         raise AnalysisBroken("orc_compiler_compile_program: the test of _orc_compiler_flag_emulate was not found")
+    return n
+
+
+def d13_staged_scalar_identity(db, rep, rule="D13-APP-SCALAR-UNALTERED"):
+    """"Programs using the new opcodes are emulated with the application's functions" - and those functions get the operands the
+    program has.  orc_executor_emulate scales ONE kind of staged scalar by the x2/x4 shift: the element offset of the built-in
+    loadoffX (lanes vs elements).  What an application opcode's scalar means is the application's business; the scaling must be
+    tied to the identity of the opcode (its name or emulation function), not only to the flag pattern LOAD|SCALAR with two
+    sources, which an application opcode can have as well - its emulateN would see 6 where the program says 3."""
+    from flow import single_defs
+    ee = db.func("orc_executor_emulate", "orcexecutor")
+    rep.saw(ee)
+    sd = single_defs(ee)
+    n = 0
+    for name, d in sorted(sd.items()):
+        t = unparse(d)
+        if "shift" not in t or "flags" not in t:
+            continue
+        cond = strip_casts(d)
+        while cond is not None and cond.k == "ParenExpr":
+            cond = strip_casts(cond.c[0])
+        if cond is None or cond.k != "ConditionalOperator":
+            continue
+        n += 1
+        ct = cond.c[0]
+        ident = any((y.k == "CallExpr" and y.name in ("strcmp", "strncmp", "__builtin_strcmp", "__builtin_strncmp") and "name" in unparse(y)) or
+                    (y.k == "MemberExpr" and y.name in ("emulateN", "emulate")) for y in ct.walk())
+        rep.check(ident, rule, where(ee), "scale:%s" % name, "the lane scaling of a staged scalar is tied to the opcode's identity",
+                  "orc_executor_emulate scales the staged scalar operand (`%s`) for every opcode with the flag pattern `%s`: an application opcode "
+                  "registered with the same flags gets its parameter multiplied by 2 or 4 under x2/x4 before the application's emulateN sees it" %
+                  (name, unparse(ct)[:90]), line=d.line)
+    if n < 1:
+        raise AnalysisBroken("orc_executor_emulate: the lane scaling of staged scalars was not found")
     return n
